@@ -42,6 +42,7 @@ def okGE : Expr → Bool
   | .call _ _ (.ident _ _ name _ _ _) args false =>
     name != "throw" && name != "println" && okGArgs args && oneNonAtom args
   | .matchE _ _ c arms (some d) => okGE c && okGArms arms && okGE d
+  | .list _ _ xs => xs.all atomE
   | _ => false
 /-- The arms of a `match`: literal patterns, bodies in the fragment. -/
 def okGArms : List (List Expr × Expr) → Bool
@@ -55,6 +56,12 @@ def okGArgs : List (String × Expr) → Bool
   | a :: as => okGE a.2 && okGArgs as
 end
 
+/-- A cell read: `l[i]`, possibly in parentheses (its value on the VM's stack carries the cell's origin). -/
+def isRead : Expr → Bool
+  | .index .. => true
+  | .grouped _ e => isRead e
+  | _ => false
+
 mutual
 def depthGE : Expr → Nat
   | .grouped _ e => depthGE e + 1
@@ -63,6 +70,7 @@ def depthGE : Expr → Nat
   | .ifE _ _ c t (some e) => max (depthGE c) (max (depthGB t) (depthGB e)) + 1
   | .call _ _ _ args _ => depthGArgs args + 1
   | .matchE _ _ c arms (some d) => max (depthGE c) (max (depthGArms arms) (depthGE d)) + 1
+  | .index _ _ b i => max (depthGE b) (depthGE i) + 1
   | _ => 1
 def depthGArms : List (List Expr × Expr) → Nat
   | [] => 1
@@ -84,6 +92,8 @@ def varsGE : Expr → List String
   | .ifE _ _ c t (some e) => varsGE c ++ (varsGB t ++ varsGB e)
   | .call _ _ _ args _ => varsGArgs args
   | .matchE _ _ c arms (some d) => varsGE c ++ (varsGArms arms ++ varsGE d)
+  | .index _ _ b i => varsGE b ++ varsGE i
+  | .list _ _ xs => xs.flatMap varsE
   | _ => []
 def varsGArms : List (List Expr × Expr) → List String
   | [] => []
@@ -105,6 +115,7 @@ def callsGE : Expr → List String
   | .ifE _ _ c t (some e) => callsGE c ++ (callsGB t ++ callsGB e)
   | .call _ _ (.ident _ _ name _ _ _) args _ => name :: callsGArgs args
   | .matchE _ _ c arms (some d) => callsGE c ++ (callsGArms arms ++ callsGE d)
+  | .index _ _ b i => callsGE b ++ callsGE i
   | _ => []
 def callsGArms : List (List Expr × Expr) → List String
   | [] => []
@@ -116,6 +127,17 @@ def callsGArgs : List (String × Expr) → List String
   | [] => []
   | a :: as => callsGE a.2 ++ callsGArgs as
 end
+
+/-- **Expressions in the value positions of statements** (`let`, assignments): the expression fragment
+closed under element reads `l[i]` and arithmetic over them. Finding V38 (a read leaves a pointer to
+the cell on the VM's stack) is excluded: next to a cell read, the later operand calls no function. -/
+def okXE : Expr → Bool
+  | .index _ _ b i => okXE b && okXE i && (!isRead b || (callsGE i).isEmpty)
+  | .infix sp ty op l r =>
+    pureE (.infix sp ty op l r) || (!isLogical op && okXE l && okXE r && (!isRead l || (callsGE r).isEmpty))
+  | .pre _ _ _ e => okXE e
+  | .grouped _ e => okXE e
+  | e => okGE e
 
 end Frag
 
@@ -138,6 +160,14 @@ def armTests (mod : String) (sp : Span) : List (List Expr × Expr) → LM → SC
     (litTests sp (freshLabel mod lm "case").1 a.1 ++ (armTests mod sp rest (freshLabel mod lm "case").2).1,
      (freshLabel mod lm "case").1 :: (armTests mod sp rest (freshLabel mod lm "case").2).2.1,
      (armTests mod sp rest (freshLabel mod lm "case").2).2.2)
+
+/-- The elements of a list literal (pure expressions): each is appended to the list under construction. -/
+def cgEls (mod : String) (ρ : String → Option String) (sp : Span) : List Expr → LM → SCode × LM
+  | [], lm => ([], lm)
+  | x :: xs, lm =>
+    ((cpE mod ρ x lm).1 ++ [(.copyPush (.int 2), sp), (.hostCall "__internal_list_push", sp)] ++
+      (cgEls mod ρ sp xs (cpE mod ρ x lm).2).1,
+     (cgEls mod ρ sp xs (cpE mod ρ x lm).2).2)
 
 mutual
 /-- **The code of an expression of the general fragment** (`ρ`: variables, `φ`: functions). -/
@@ -190,6 +220,12 @@ def cgE (mod : String) (ρ φ : String → Option String) : Expr → LM → SCod
     let cd := cgE mod ρ φ d bs.2
     (cc.1 ++ ts.1 ++ [(.jump dfl.1, sp)] ++ bs.1 ++ [(.label dfl.1, sp), (.drop, sp)] ++ cd.1 ++
       [(.jump after.1, sp), (.label after.1, sp)], cd.2)
+  | .list sp _ xs, lm =>
+    ([(.cloningPush .emptyList, sp)] ++ (cgEls mod ρ sp xs lm).1, (cgEls mod ρ sp xs lm).2)
+  | .index sp _ b i, lm =>
+    let cb := cgE mod ρ φ b lm
+    let ci := cgE mod ρ φ i cb.2
+    (cb.1 ++ ci.1 ++ [(.index, sp)], ci.2)
   | _, lm => ([], lm)
 /-- The arm bodies of a `match`: `case: Drop; body; Jump after`. -/
 def cgArms (mod : String) (ρ φ : String → Option String) (sp : Span) (after : String) :
@@ -264,6 +300,21 @@ theorem cgE_of_pure (mod : String) (ρ φ : String → Option String) (e : Expr)
     (h : Frag.pureE e = true) : cgE mod ρ φ e lm = cpE mod ρ e lm :=
   (cgE_pure mod ρ φ (Frag.depthE e)).1 e lm (Nat.le_refl _) h
 
+/-- Compound assignment to a heap slot: the current value is duplicated first … -/
+def opPre (op : Option InfixOp) (sp : Span) : SCode :=
+  match op with
+  | none => []
+  | some _ => [(.dup, sp)]
+/-- … and combined with the right-hand side before `Assign`. -/
+def opPost (op : Option InfixOp) (sp : Span) : SCode :=
+  match op with
+  | none => []
+  | some o => (arithI o).map (·, sp)
+def opOK (op : Option InfixOp) : Bool :=
+  match op with
+  | none => true
+  | some o => !Frag.isLogical o
+
 /-! ## Statements -/
 
 mutual
@@ -283,6 +334,10 @@ def cgS (mod fn : String) (φ : String → Option String) :
     let m := (ρS env.scopes name).getD name
     let cr := cgE mod (ρS env.scopes) φ r env.lm
     ([(.getVar m, asp)] ++ cr.1 ++ (arithI op).map (·, asp) ++ [(.setVar m, asp)], { env with lm := cr.2 })
+  | _, .exprS _ (.assign asp op (.index isp ity b i) r), env =>
+    let cl := cgE mod (ρS env.scopes) φ (.index isp ity b i) env.lm
+    let cr := cgE mod (ρS env.scopes) φ r cl.2
+    (cl.1 ++ opPre op asp ++ cr.1 ++ opPost op asp ++ [(.assign, asp)], { env with lm := cr.2 })
   | loops, .exprS _ (.ifE isp _ c t (some eb)), env =>
     let cc := cgE mod (ρS env.scopes) φ c env.lm
     let after := freshLabel mod cc.2 "if_after"
@@ -445,9 +500,11 @@ mutual
 /-- The statement fragment; `fr`: `for` loops are allowed; `il`: inside a loop (`break`/`continue` are
 allowed); `rt`: `return` is allowed. -/
 def okFS : Bool → Bool → Bool → Stmt → Bool
-  | _, _, _, .letS _ _ _ needsCast _ e => !needsCast && okGE e
-  | _, _, _, .exprS _ (.assign _ none (.ident _ _ _ false _ false) r) => okGE r
-  | _, _, _, .exprS _ (.assign _ (some op) (.ident _ _ _ false _ false) r) => !isLogical op && okGE r
+  | _, _, _, .letS _ _ _ needsCast _ e => !needsCast && okXE e
+  | _, _, _, .exprS _ (.assign _ none (.ident _ _ _ false _ false) r) => okXE r
+  | _, _, _, .exprS _ (.assign _ (some op) (.ident _ _ _ false _ false) r) => !isLogical op && okXE r
+  | _, _, _, .exprS _ (.assign _ op (.index isp ity b i) r) =>
+    opOK op && okXE (.index isp ity b i) && okXE r && (callsGE r).isEmpty
   | fr, il, rt, .exprS _ (.ifE _ ty c t (some eb)) => ty.isNull && okGE c && okFBS fr il rt t && okFBS fr il rt eb
   | fr, il, rt, .exprS _ (.ifE _ ty c t none) => ty.isNull && okGE c && okFBS fr il rt t
   | fr, il, rt, .exprS _ (.tryE _ ty t _ c) => ty.isNull && okFBS fr false false t && okFBS fr il rt c
@@ -489,6 +546,7 @@ abbrev okGArmsS (il rt : Bool) (arms : List (List Expr × Expr)) : Bool := okFAr
 mutual
 def depthGS : Stmt → Nat
   | .letS _ _ _ _ _ e => depthGE e + 2
+  | .exprS _ (.assign _ _ (.index _ _ b i) r) => max (depthGE b) (max (depthGE i) (depthGE r)) + 3
   | .exprS _ (.assign _ _ _ r) => depthGE r + 2
   | .exprS _ (.ifE _ _ c t (some eb)) => max (depthGE c) (max (depthGBS t) (depthGBS eb)) + 2
   | .exprS _ (.ifE _ _ c t none) => max (depthGE c) (depthGBS t) + 2
@@ -528,6 +586,8 @@ def wsGS (mod fn : String) (φ : String → Option String) : List (String × Str
   | _, .letS _ _ _ _ _ e, env => wsGE env.scopes φ e
   | _, .exprS _ (.assign _ _ (.ident _ _ name _ _ _) r), env =>
     (ρS env.scopes name).isSome && wsGE env.scopes φ r
+  | _, .exprS _ (.assign _ _ (.index isp ity b i) r), env =>
+    wsGE env.scopes φ (.index isp ity b i) && wsGE env.scopes φ r
   | loops, .exprS _ (.ifE _ _ c t (some eb)), env =>
     wsGE env.scopes φ c &&
       wsGBS mod fn φ loops t { env with lm := (freshLabel mod (freshLabel mod
@@ -606,6 +666,7 @@ mutual
 def identsGS : Stmt → List String
   | .letS _ name _ _ _ e => name :: namesGE e
   | .exprS _ (.assign _ _ (.ident _ _ name _ _ _) r) => name :: namesGE r
+  | .exprS _ (.assign _ _ (.index isp ity b i) r) => namesGE (.index isp ity b i) ++ namesGE r
   | .exprS _ (.ifE _ _ c t (some eb)) => namesGE c ++ (identsGBS t ++ identsGBS eb)
   | .exprS _ (.ifE _ _ c t none) => namesGE c ++ identsGBS t
   | .exprS _ (.call _ _ (.ident _ _ name _ _ _) args _) => name :: namesGArgs args
@@ -628,5 +689,35 @@ def identsGArmsS : List (List Expr × Expr) → List String
 end
 
 end Frag
+
+/-! ## Assignment through an index: unfolding lemmas (for either form of the operator) -/
+
+theorem okFS_idxAssign (fr il rt sp asp op isp ity b i r) :
+    Frag.okFS fr il rt (.exprS sp (.assign asp op (.index isp ity b i) r)) =
+      (opOK op && Frag.okXE (.index isp ity b i) && Frag.okXE r && (Frag.callsGE r).isEmpty) := by
+  cases op <;> simp only [Frag.okFS]
+
+theorem cgS_idxAssign (mod fn φ loops sp asp op isp ity b i r) (env : CEnv) :
+    cgS mod fn φ loops (.exprS sp (.assign asp op (.index isp ity b i) r)) env =
+      ((cgE mod (ρS env.scopes) φ (.index isp ity b i) env.lm).1 ++ opPre op asp ++
+        (cgE mod (ρS env.scopes) φ r (cgE mod (ρS env.scopes) φ (.index isp ity b i) env.lm).2).1 ++ opPost op asp ++
+        [(.assign, asp)],
+       { env with lm := (cgE mod (ρS env.scopes) φ r (cgE mod (ρS env.scopes) φ (.index isp ity b i) env.lm).2).2 }) := by
+  cases op <;> simp only [cgS]
+
+theorem wsGS_idxAssign (mod fn φ loops sp asp op isp ity b i r) (env : CEnv) :
+    Frag.wsGS mod fn φ loops (.exprS sp (.assign asp op (.index isp ity b i) r)) env =
+      (Frag.wsGE env.scopes φ (.index isp ity b i) && Frag.wsGE env.scopes φ r) := by
+  simp only [Frag.wsGS]
+
+theorem identsGS_idxAssign (sp asp op isp ity b i r) :
+    Frag.identsGS (.exprS sp (.assign asp op (.index isp ity b i) r)) =
+      Frag.namesGE (.index isp ity b i) ++ Frag.namesGE r := by
+  simp only [Frag.identsGS]
+
+theorem depthGS_idxAssign (sp asp op isp ity b i r) :
+    Frag.depthGS (.exprS sp (.assign asp op (.index isp ity b i) r)) =
+      max (Frag.depthGE b) (max (Frag.depthGE i) (Frag.depthGE r)) + 3 := by
+  simp only [Frag.depthGS]
 
 end HmsProofs.Sim
